@@ -8,7 +8,7 @@
 
 namespace seq {
 
-static uint64_t g_att_migrated = 0, g_att_remote_overflow = 0, g_att_forged_walk = 0, g_att_double = 0, g_att_overflow = 0, g_att_forged = 0, g_att_skipped = 0, g_forged_allocs_until_report = 0, g_att_classes_n = 0;
+static uint64_t g_att_forged_collect = 0, g_att_double_deep = 0, g_att_migrated = 0, g_att_remote_overflow = 0, g_att_forged_walk = 0, g_att_double = 0, g_att_overflow = 0, g_att_forged = 0, g_att_skipped = 0, g_forged_allocs_until_report = 0, g_att_classes_n = 0;
 static std::set<size_t> g_att_classes;
 static volatile int g_expect_code = 0;       // error code the running attack must produce
 static volatile int g_expect_seen = 0;
@@ -93,6 +93,57 @@ static void attack_double_free(State& S) {
   end_attack(S, "second free of a thread-local block while its area holds another live block", "double-free-undetected", n, p);
   if (S.cfg.secure) check_conservation(S, "after an ignored double free", "C17");
   (void)ensure_default_is_backing;
+}
+
+// (1b) the block freed twice sits DEEP in the page's free lists while only one or two blocks of the page are live: private heap, fresh page, M blocks,
+// all but one or two are freed (the victim first, so that it ends up deepest), optionally a collect, then the victim is freed again
+static void attack_double_free_deep(State& S) {
+  int alive = 0; for (auto& e : S.heaps) if (e.alive) alive++;
+  if (alive >= 9) { g_att_skipped++; return; }
+  size_t n = attack_size(S); if (n > 4096) n = 16 + n % 2048;
+  mi_heap_t* h = mi_heap_new(); if (h == nullptr) { g_att_skipped++; return; }
+  HeapEnt e; e.h = h; e.alive = true; S.heaps.push_back(e);
+  int hi = (int)S.heaps.size() - 1;
+  S.force_heap = hi;
+  const int M = 10 + (int)vf_rng_below(&S.rng, 22);
+  std::vector<vf::Blk*> bs;
+  for (int i = 0; i < M; i++) { vf::Blk* b = do_alloc(S, EP_heap_malloc, n); if (b) bs.push_back(b); }
+  S.force_heap = -1;
+  bool done = false;
+  if ((int)bs.size() == M) {
+    const int nlive = 1 + (int)vf_rng_below(&S.rng, 2);
+    // all blocks in the same 64 KiB page as the victim? (otherwise the picture is not the intended one: skip)
+    vf::Blk* victim = bs[0];
+    bool same = true; for (vf::Blk* b : bs) if (((uintptr_t)b->p >> 16) != ((uintptr_t)victim->p >> 16)) same = false;
+    if (same) {
+      void* p = victim->p;
+      do_free(S, victim, EP_free);
+      for (int i = 1; i < M - nlive; i++) do_free(S, bs[(size_t)i], EP_free);
+      switch (vf_rng_below(&S.rng, 3)) {
+        case 1: vf_cur_what = "collect between frees"; mi_heap_collect(h, false); g_att_migrated++; break;
+        case 2: vf_cur_what = "collect between frees"; mi_heap_collect(h, true); g_att_migrated++; break;
+        default: break;
+      }
+      vf_cur_what = "second free (deep in the list, few live blocks)";
+      begin_attack(EAGAIN);
+      g_att_double++; g_att_double_deep++; g_att_classes.insert(mi_good_size(n));
+      mi_free(p);
+      end_attack(S, "second free of a thread-local block that sits deep in its page's free list while the page holds only 1-2 live blocks", "double-free-undetected", n, p);
+      done = true;
+      if (S.cfg.secure) {
+        // the heap stays usable: nothing is handed out twice (the shadow model's overlap oracle watches these allocations)
+        S.force_heap = hi;
+        std::vector<vf::Blk*> again; for (int i = 0; i < M + 8; i++) { vf::Blk* b = do_alloc(S, EP_heap_malloc, n); if (b) again.push_back(b); }
+        S.force_heap = -1;
+        for (vf::Blk* b : again) S.sm.verify(b, "after an ignored double free");
+      }
+    }
+  }
+  if (!done) g_att_skipped++;
+  std::vector<vf::Blk*> mine; for (vf::Blk* b : S.sm.live) if (b->heap == hi) mine.push_back(b);
+  for (vf::Blk* b : mine) { S.sm.verify(b, "before destroying the attacked heap"); S.sm.remove(b); }
+  mi_heap_destroy(h);
+  S.heaps[hi].alive = false;
 }
 
 // (2) a foreign byte just past the requested size
@@ -210,10 +261,52 @@ static void attack_forged_walk(State& S) {
   vf_err_reset();
 }
 
+// (3c) the forged link sits in a block on the page's local free list while the page's free list is not empty; a FORCED collect appends the one list to the
+// other and walks the links to find the tail: it must report the forged link, not follow it.  Private heap (destroyed afterwards); the secure build's heap must stay usable.
+static void attack_forged_collect(State& S) {
+  int alive = 0; for (auto& e : S.heaps) if (e.alive) alive++;
+  if (alive >= 9 || S.cfg.debug) { g_att_skipped++; return; }
+  size_t n = attack_size(S); if (n > 2048) n = 16 + n % 1024;
+  mi_heap_t* h = mi_heap_new(); if (h == nullptr) { g_att_skipped++; return; }
+  HeapEnt e; e.h = h; e.alive = true; S.heaps.push_back(e);
+  int hi = (int)S.heaps.size() - 1;
+  S.force_heap = hi;
+  std::vector<vf::Blk*> bs;
+  for (int i = 0; i < 6; i++) { vf::Blk* b = do_alloc(S, EP_heap_malloc, n); if (b) bs.push_back(b); }      // far fewer than a page holds: its free list stays non-empty
+  S.force_heap = -1;
+  if (bs.size() == 6) {
+    uint8_t* p1 = bs[1]->p; 
+    do_free(S, bs[3], EP_free);          // local free list: bs[3]
+    do_free(S, bs[1], EP_free);          // local free list: bs[1] -> bs[3]; the head's link gets forged
+    uint64_t forged = vf_rng_next(&S.rng) | 1;
+    memcpy(p1, &forged, sizeof(forged));
+    vf_cur_what = "forced collect walking over a forged link";
+    vf_err_reset(); g_expect_code = EFAULT; g_expect_seen = 0; g_unexpected_code = 0;
+    g_att_forged_collect++; g_att_forged++;
+    mi_heap_collect(h, true);
+    g_expect_code = 0;
+    if (g_expect_seen == 0)
+      vf_trip("forged-link-unreported", "C17", "a forced collect appended a local free list whose head (block %p, size %zu) had a forged link: no EFAULT was reported (the link was followed)", (void*)p1, n);
+    if (g_unexpected_code != 0) vf_trip("hardening-wrong-report", "C17", "unexpected error code %d during a forced collect over a forged link: %s", g_unexpected_code, vf_last_msgs);
+    vf_err_reset();
+    // the heap stays usable
+    S.force_heap = hi;
+    std::vector<vf::Blk*> again; for (int i = 0; i < 24; i++) { vf::Blk* b = do_alloc(S, EP_heap_malloc, n); if (b) again.push_back(b); }
+    S.force_heap = -1;
+    for (vf::Blk* b : again) S.sm.verify(b, "after a reported forged link");
+  }
+  else g_att_skipped++;
+  std::vector<vf::Blk*> mine; for (vf::Blk* b : S.sm.live) if (b->heap == hi) mine.push_back(b);
+  for (vf::Blk* b : mine) { S.sm.verify(b, "before destroying the attacked heap"); S.sm.remove(b); }
+  mi_heap_destroy(h);
+  S.heaps[hi].alive = false;
+  vf_err_reset();
+}
+
 static void harden_print(FILE* f) {
-  fprintf(f, ",\"hardening\":{\"double_free\":%llu,\"overflow\":%llu,\"forged_link\":%llu,\"skipped\":%llu,\"classes\":%zu,\"allocs_until_forged_reported\":%llu,\"double_free_after_migration\":%llu,\"overflow_freed_remotely\":%llu,\"forged_link_met_by_double_free_walk\":%llu}",
+  fprintf(f, ",\"hardening\":{\"double_free\":%llu,\"overflow\":%llu,\"forged_link\":%llu,\"skipped\":%llu,\"classes\":%zu,\"allocs_until_forged_reported\":%llu,\"double_free_after_migration\":%llu,\"overflow_freed_remotely\":%llu,\"forged_link_met_by_double_free_walk\":%llu,\"double_free_deep\":%llu,\"forged_link_met_by_forced_collect\":%llu}",
           (unsigned long long)g_att_double, (unsigned long long)g_att_overflow, (unsigned long long)g_att_forged, (unsigned long long)g_att_skipped, g_att_classes.size(),
-          (unsigned long long)g_forged_allocs_until_report, (unsigned long long)g_att_migrated, (unsigned long long)g_att_remote_overflow, (unsigned long long)g_att_forged_walk);
+          (unsigned long long)g_forged_allocs_until_report, (unsigned long long)g_att_migrated, (unsigned long long)g_att_remote_overflow, (unsigned long long)g_att_forged_walk, (unsigned long long)g_att_double_deep, (unsigned long long)g_att_forged_collect);
   (void)g_att_classes_n;
 }
 
@@ -230,10 +323,10 @@ void run_hardening(State& S) {
     history_step(S);
     if (S.op_index >= next_attack) {
       unsigned k = (unsigned)vf_rng_below(&S.rng, 7);
-      if (k < 2) attack_double_free(S);
+      if (k < 2) { if (vf_rng_chance(&S.rng, 1, 3)) attack_double_free_deep(S); else attack_double_free(S); }
       else if (k < 4) attack_overflow(S);
       else if (k < 6) attack_forged_link(S);
-      else attack_forged_walk(S);
+      else if (vf_rng_chance(&S.rng, 1, 2)) attack_forged_walk(S); else attack_forged_collect(S);
       next_attack = S.op_index + 40 + vf_rng_below(&S.rng, 160);
       if (S.cfg.debug && (g_att_double + g_att_overflow + g_att_forged) > 0) {
         // debug build and the attack was NOT reported (otherwise the callback ended the case)
